@@ -315,6 +315,21 @@ def run_error(env, sec, kind, state, res):
             args += ['--' + other, env.src_p8]
         else:
             args[2:2] = ['--' + other, env.src_p8]
+    elif kind.startswith('oversize-'):
+        # every argument is fine and loads, but the program does not fit a .p8.png cart's code area (the failure comes
+        # from the last step, the write); only for .p8.png OUTs - a .p8 has no such limit
+        if '-p8' in state or sec != 'lua':
+            return
+        big = os.path.join(env.d, 'big.lua')
+        if kind == 'oversize-incompressible':
+            v, body = 7, bytearray()
+            while len(body) < 42000:
+                v = (v * 1103515245 + 12345) & 0x7fffffff
+                body += b'D%d="%s"\n' % (len(body), bytes(65 + ((v >> (3 * i)) % 26) for i in range(9)) * 3)
+            open(big, 'wb').write(bytes(body))
+        else:
+            open(big, 'wb').write(b''.join(b'x%d=%d*%d+%d\n' % (i, i * 7, i + 3, i * i) for i in range(3200)))
+        args = ['build', out, '--lua', big, '--gfx', env.src_p8]
     elif kind == 'outext':
         # OUT itself has an unusable name: nothing may be created
         out = os.path.join(env.d, 'out_' + sec + '.txt')
@@ -429,7 +444,7 @@ def run_shard(item):
                 for sec in SECTIONS:
                     for kind in ('both', 'missing', 'wrongext', 'luaext', 'outext', 'emptypath', 'emptypath+empty', 'dirpath',
                                  'unloadable-lua-first', 'unloadable-lua-last', 'unloadable-header-first', 'unloadable-notpng-last',
-                                 'unloadable-include-first'):
+                                 'unloadable-include-first', 'oversize-incompressible', 'oversize-compressible'):
                         run_error(env, sec, kind, state, res)
             res.sample({'error': 'both --gfx and --empty-gfx', 'out': 'existing-p8'})
     finally:
